@@ -295,7 +295,23 @@ func (c *Ctx) checkNilRet(br *BR) {
 			continue
 		}
 		nf++
+		// the recover block returns the current results only if a deferred call recovers a panic
+		recovers := false
+		eachInstr(f, func(b *ssa.BasicBlock, i int, in ssa.Instruction) {
+			if d, ok := in.(*ssa.Defer); ok {
+				if mc, ok := d.Call.Value.(*ssa.MakeClosure); ok {
+					if g, ok := mc.Fn.(*ssa.Function); ok && closureRecovers(g) {
+						recovers = true
+					}
+				} else if g := d.Call.StaticCallee(); g != nil && fnPkgPath(g) == zygoPath && closureRecovers(g) {
+					recovers = true
+				}
+			}
+		})
 		for _, r := range returnsOf(f) {
+			if f.Recover != nil && r.Block() == f.Recover && !recovers {
+				continue
+			}
 			n++
 			if nilPair(r.Results[0], r.Results[1]) && !errKnownNonNil(r, r.Results[1]) {
 				c.bad("C01-NILRET", fnName(f), "return (nil Sexp, nil error)", r.Pos(), "a return can carry Go's nil value together with a nil error: the caller gets neither a value nor an error, and printing or using the result dereferences nil")
@@ -360,15 +376,45 @@ func mayBeNilSexp(v ssa.Value, seen map[ssa.Value]bool) bool {
 			if al, ok := x.X.(*ssa.Alloc); ok {
 				// zero value unless every path stores: approximate — some store of nil const or no store at all
 				stores := 0
+				storeBlk := map[*ssa.BasicBlock]bool{}
 				for _, r := range nonDebugRefs(al) {
 					if st, ok := r.(*ssa.Store); ok && st.Addr == ssa.Value(al) {
+						// only stores that can reach this load (the recover block is entered from anywhere)
+						inRecover := x.Parent().Recover != nil && x.Block() == x.Parent().Recover
+						if !inRecover && st.Block() != x.Block() && !blockReaches(st.Block(), x.Block()) {
+							continue
+						}
+						if st.Block() == x.Block() && instrIndex(st) > instrIndex(x) {
+							continue
+						}
 						stores++
+						storeBlk[st.Block()] = true
 						if mayBeNilSexp(st.Val, seen) {
 							return true
 						}
 					}
 				}
-				return stores == 0
+				if stores == 0 {
+					return true
+				}
+				// a path from the entry to the load that passes no store leaves the zero value
+				if !storeBlk[x.Block()] {
+					entry := x.Parent().Blocks[0]
+					if storeBlk[entry] {
+						return false
+					}
+					if x.Parent().Recover != nil && x.Block() == x.Parent().Recover {
+						return true // a panic before the first store leaves the zero value
+					}
+					if entry == x.Block() {
+						return true
+					}
+					free := reachableAvoiding(entry, func(b *ssa.BasicBlock) bool { return storeBlk[b] })
+					if free[x.Block()] {
+						return true
+					}
+				}
+				return false
 			}
 		}
 	}
